@@ -24,8 +24,9 @@ Empty == [x \in {} |-> 0]
 
 InitSt == [wD |-> -1, wTimes |-> Empty, wRead |-> 0, wLis |-> 0,
            rd |-> Empty,      \* reader index -> [D, times (instance -> seq of reception times), lis]
+           wait |-> [active |-> FALSE, sawTrue |-> FALSE],
            now |-> 0]
-CntInit == [scenarios |-> 0, offered |-> 0, offeredmiss |-> 0, listener |-> 0, requestedmiss |-> 0, sleep |-> 0, final |-> 0]
+CntInit == [waits |-> 0, waitwoken |-> 0, scenarios |-> 0, offered |-> 0, offeredmiss |-> 0, listener |-> 0, requestedmiss |-> 0, sleep |-> 0, final |-> 0]
 
 R(s, v, c) == [s |-> s, v |-> v, c |-> c]
 Bump(c, f) == [c EXCEPT ![f] = @ + 1]
@@ -89,6 +90,17 @@ OnFinal(s, e, c) ==
                 !.requestedmiss = @ + FoldFunctionOnSet(LAMBDA r, acc : acc + (IF s.rd[r].D >= 0 THEN Lo(s.rd[r].times, s.rd[r].D, e.t) ELSE 0),
                                                        0, [r \in DOMAIN s.rd |-> r], DOMAIN s.rd)])
 
+\* C32: WaitSet::wait returns whenever an attached condition is or becomes true
+OnWaitCall(s, e, c) == R([s EXCEPT !.wait = [active |-> TRUE, sawTrue |-> e.trigger = 1]], {}, c)
+OnTriggerObs(s, e, c) ==
+    IF s.wait.active /\ e.trigger = 1 THEN R([s EXCEPT !.wait.sawTrue = TRUE], {}, c) ELSE R(s, {}, c)
+OnWaitRet(s, e, c) ==
+    R([s EXCEPT !.wait = [active |-> FALSE, sawTrue |-> FALSE]],
+      (IF e.res = "Timeout" /\ s.wait.sawTrue THEN {"C32:wait-timed-out-although-a-condition-became-true"} ELSE {})
+      \cup (IF e.res = "Ok" /\ e.n < 1 THEN {"C32:wait-returned-without-triggered-condition"} ELSE {})
+      \cup (IF e.res = "Ok" /\ ~s.wait.sawTrue /\ e.trigger = 0 THEN {"C32:wait-returned-although-no-condition-is-true"} ELSE {}),
+      [c EXCEPT !.waits = @ + 1, !.waitwoken = @ + (IF e.res = "Ok" THEN 1 ELSE 0)])
+
 OnSleep(s, e, c) ==
     R(s, IF e.dns < 0 \/ e.dns > POKE * 1000 THEN {"C31:worker-sleep-outside-0-poke"} ELSE {}, Bump(c, "sleep"))
 
@@ -103,6 +115,9 @@ Apply(s0, e, c) ==
       [] e.ev = "Listener" -> OnListener(s, e, c)
       [] e.ev = "Final" -> OnFinal(s, e, c)
       [] e.ev = "Sleep" -> OnSleep(s, e, c)
+      [] e.ev = "WaitCall" -> OnWaitCall(s, e, c)
+      [] e.ev = "TriggerObs" -> OnTriggerObs(s, e, c)
+      [] e.ev = "WaitRet" -> OnWaitRet(s, e, c)
       [] e.ev = "SimError" -> R(s, {"C31:simulation-hang-or-worker-stall"}, c)
       [] OTHER -> R(s, {}, c)
 
